@@ -70,6 +70,7 @@ def gen_plan(seed, tier="quick"):
         dtype = r.choice(["int32", "float32"])          # Reader(..., dtype=...): 4 bytes per sample
         frame = nc * 4
     plan = {"property": PROP, "seed": seed, "dtype": dtype, "reader": reader, "form": form, "fixture": fixture,
+            "entry": "meta" if r.random() < 0.12 else "data",      # the reader may be handed the .meta path instead of the data file
             "nap": nap, "ignore_warnings": r.random() < 0.3, "sort": r.random() < 0.5,
             "data_seed": r.randrange(1 << 30)}
     if form == "cbin":
@@ -121,7 +122,8 @@ def gen_plan(seed, tier="quick"):
                  "meta_fields": r.choice(["complete"] * 6 + ["size_only", "time_only"]),     # only one of the two size fields present
                  "use_with": r.random() < 0.2,                                               # reader used as a context manager
                  "two_phase": two_phase, "pre_open": pre_open, "reopen": reopen,
-                 "reopen_same": r.random() < 0.4})      # close() + open() on the same object instead of a new Reader
+                 "reopen_same": r.random() < 0.4,       # close() + open() on the same object instead of a new Reader
+                 "reopen_keep_open": r.random() < 0.35})  # ... or the first reader stays open while the second one is constructed
     return plan
 
 
@@ -136,13 +138,16 @@ def sweep_plans(tier, verif_seed):
             for fixture in ("NP24", "NP21"):
                 for meta in ("none", "stale", "more"):
                     for frames in (1, 7):
-                        for trailing in range(frame):
-                            yield {"property": PROP, "seed": 0, "reader": reader, "form": "bin",
-                                   "fixture": fixture, "nap": nap, "ignore_warnings": False,
-                                   "sort": False, "data_seed": 11, "frames": frames,
-                                   "bytes": frames * frame + trailing,
-                                   "claimed": frames + (1 if meta == "more" else 0) - (1 if meta == "stale" and frames > 1 else 0),
-                                   "meta": meta, "bursts": []}
+                        for dtype in (("int16", "int32") if (nap in (1, 3) and fixture == "NP24") else ("int16",)):
+                            fr_ = frame * np.dtype(dtype).itemsize // 2
+                            for trailing in range(fr_):
+                                yield {"property": PROP, "seed": 0, "reader": reader, "form": "bin", "dtype": dtype,
+                                       "fixture": fixture, "nap": nap, "ignore_warnings": False,
+                                       "entry": "meta" if (trailing + frames) % 5 == 0 else "data",
+                                       "sort": False, "data_seed": 11, "frames": frames,
+                                       "bytes": frames * fr_ + trailing,
+                                       "claimed": frames + (1 if meta == "more" else 0) - (1 if meta == "stale" and frames > 1 else 0),
+                                       "meta": meta, "bursts": []}
 
 
 # ---------------------------------------------------------------------------------------------
@@ -243,6 +248,9 @@ def _run(plan, root):
         return None
 
     cls = getattr(spikeglx, plan["reader"])
+    if plan.get("entry") == "meta":
+        target = metaf
+        probe("opened_through_the_meta_path")
     dkw = {} if dt == np.dtype("int16") else {"dtype": dt.name}
     B0 = state["size"]
     sr = None
@@ -319,7 +327,12 @@ def _run(plan, root):
                 if abs(rl_now - n_now / fs) > 1e-9 * max(1.0, n_now / fs):
                     raise Violation("C11.O4", f"{sigbase}:offline-after-growth-rl", f"rl={rl_now} does not match ns={n_now}")
                 plan = dict(plan, reopen=0)
-            sr.close()
+            first_open = None
+            if plan.get("reopen_keep_open") and not plan.get("reopen_same"):
+                first_open = sr          # two readers of one (growing) file alive in one process
+                first_N = int(sr.ns) if plan["reader"] != "OnlineReader" else None
+            else:
+                sr.close()
             same_obj = sr if plan.get("reopen_same") else None
             sr = None
             nb = plan["reopen"] if plan["reader"] != "OnlineReader" else 0
@@ -347,6 +360,25 @@ def _run(plan, root):
             try:
                 plan["bursts"] = []
                 _oracle(plan, sr, stream, frame, nc, fs, B2, B2, log, probe, sigbase + ":second-open")
+                if first_open is not None:
+                    # the reader opened first must be unaffected by the second one: still readable, nothing beyond the file
+                    probe("two_readers_of_one_file_alive")
+                    try:
+                        n1 = int(first_open.ns)
+                        rows1 = first_open[:, :]
+                    except Exception as e:
+                        raise Violation("C11.O5", f"{sigbase}:first-reader-after-second-open:{type(e).__name__}",
+                                        f"reading through the first reader after a second one was opened on the same file raised {type(e).__name__}: {e}")
+                    hi2 = B2 // frame
+                    rawn = np.frombuffer(stream[: hi2 * frame], dtype=dt).reshape(hi2, nc)
+                    o_ = np.asarray(first_open.raw_channel_order)
+                    g_ = np.asarray(first_open.channel_conversion_sample2v["ap"])
+                    k1 = rows1.shape[0]
+                    if k1 > hi2 or (first_N is not None and (n1 != first_N or k1 != first_N)) or \
+                            not np.array_equal(rows1, (rawn[:k1].astype(np.float32)[..., o_] * g_[o_]).astype(np.float32)):
+                        raise Violation("C11.O5", f"{sigbase}:first-reader-after-second-open",
+                                        f"the first reader changed after a second one was opened on the same file: ns {first_N}->{n1}, {k1} rows read, file holds {hi2}")
+                    first_open.close()
             finally:
                 plan["bursts"] = saved_bursts
     except Violation as v:
